@@ -4,17 +4,18 @@ from ..rules import timeouts as T
 from ..rules import contain as C
 
 EXPLANATION = (
-    "Static analysis. Decides: the low-level fork/exec gets close_fds=True, pass_fds derived only from the keep-list, the "
-    "environment {**os.environ, **env} (overlay last); the keep-list provably contains only the child ends of the two "
-    "pipes, the tracker fd and descriptors added during pickling of the process object, never a parent end; child ends and "
-    "the error pipe are closed on all paths (R-SPAWN-FRESH); in the worker every path to the first task read runs "
-    "initializer(*initargs) when configured and its failure cannot reach the loop (R-INIT-FIRST); the single spawn site "
-    "ships its 8 arguments in the worker's parameter order, each role object (call queue, result queue, management lock, "
-    "exit lock) bound to the parameter used as such, initializer/initargs/timeout by field, depth+1, env= (R-ARGS, "
-    "R-SPAWN-SITE: respawn and resize cannot differ); init_main_module defaults to False and main-module keys are shipped "
-    "and applied only under it (R-MAIN-FLAG); poll maps signalled -> -signal, exited -> status, only for its own child; the "
-    "sentinel has a closing finaliser (R-EXITCODE); the worker is started with `-m` of this copy's module (R-VENDOR). "
-    "Not decided: the descriptor table of a live worker."
+    'Static analysis. Decides: the low-level fork/exec gets close_fds=True, pass_fds derived only from the keep-list, '
+    'the environment {**os.environ, **env} (overlay last); the keep-list provably contains only the child ends of the '
+    'two pipes, the tracker fd and descriptors added during pickling of the process object, never a parent end; child '
+    'ends and the error pipe are closed on all paths (R-SPAWN-FRESH); in the worker every path to the first task read '
+    'runs initializer(*initargs) when configured and its failure cannot reach the loop (R-INIT-FIRST); the single '
+    "spawn site ships its 8 arguments in the worker's parameter order, each role object (call queue, result queue, "
+    'management lock, exit lock) bound to the parameter used as such, initializer/initargs/timeout by field, depth+1, '
+    'env= (R-ARGS, R-SPAWN-SITE: respawn and resize cannot differ); init_main_module defaults to False and '
+    'main-module keys are shipped and applied only under it (R-MAIN-FLAG); poll maps signalled -> -signal, exited -> '
+    'status, only for its own child; the sentinel has a closing finaliser (R-EXITCODE); the worker is started with '
+    "`-m` of this copy's module (R-VENDOR). Also decided: the initializer is tested by identity only, never by truth "
+    'value (R-INIT-TRUTH). Not decided: the descriptor table of a live worker.'
 )
 
 
